@@ -4,8 +4,8 @@
    Quirk records (DESIGN 5.3): *_cur = what the Go code does today (every
    flag is an open finding), *_off = the repaired behaviour. *)
 From Coq Require Import NArith.
-From Arrai Require Import Base.Val Sys.Outcome Sys.Json Sys.Bits Sys.Wire Sys.Csv.
-From Arrai Require Import Proofs.JsonP Proofs.BitsP Proofs.WireP Proofs.CsvP.
+From Arrai Require Import Base.Val Sys.Outcome Sys.Json Sys.Bits Sys.Wire Sys.Csv Sys.Codec.
+From Arrai Require Import Proofs.JsonP Proofs.BitsP Proofs.WireP Proofs.CsvP Proofs.CodecP.
 
 (* ---------------- JSON / YAML translators, strict mode (the default) ---------------- *)
 
@@ -252,3 +252,54 @@ Example C13_csv_known_losses :
   csv_decode (csv_encode [[[97; 13; 10; 98]]]) = Ok [[[97; 10; 98]]] /\
   csv_ok [[[97]; [98]]; []; [[99]]] = false /\ csv_ok [[[]]] = false /\ csv_ok [[[97; 13; 10; 98]]] = false.
 Proof. vm_compute. repeat split; reflexivity. Qed.
+
+(* ---------------- histories of one configured codec function ---------------- *)
+
+(* A configured codec (`//encoding.json.encoder(cfg)` and its siblings) is a
+   function of (configuration, document): when ONE function value is applied to
+   several documents in sequence and every result is looked at afterwards, the
+   result at each position is what the codec gives for that document alone -
+   whatever was encoded before or after it.  This is the obligation the history
+   stream of the check tests on the implementation (where the closure could
+   share a translator, a text encoder or an output buffer between calls). *)
+Theorem C13_codec_results_independent_of_history :
+  forall (C D R : Type) (f : C -> D -> R) (c : C) (ds : list D) (i : nat) (d : D),
+    nth_error ds i = Some d -> nth_error (history f c ds) i = Some (f c d).
+Proof. exact @history_nth. Qed.
+Print Assumptions C13_codec_results_independent_of_history.
+
+(* the same document gets the same result in any two histories of one configuration *)
+Theorem C13_codec_same_document_same_result :
+  forall (C D R : Type) (f : C -> D -> R) (c : C) (ds es : list D) (i j : nat) (d : D),
+    nth_error ds i = Some d -> nth_error es j = Some d ->
+    nth_error (history f c ds) i = nth_error (history f c es) j.
+Proof. exact @history_independent. Qed.
+Print Assumptions C13_codec_same_document_same_result.
+
+(* results already returned are not changed by later applications *)
+Theorem C13_codec_earlier_results_stay :
+  forall (C D R : Type) (f : C -> D -> R) (c : C) (ds es : list D) (i : nat),
+    (i < length ds)%nat -> nth_error (history f c (ds ++ es)) i = nth_error (history f c ds) i.
+Proof. exact @history_earlier_results_stay. Qed.
+Print Assumptions C13_codec_earlier_results_stay.
+
+(* documents survive a shared strict encoder: decoding documents and passing
+   all of them through one configured encoder yields the documents *)
+Theorem C13_json_history_roundtrip :
+  forall q js,
+    Forall (fun j => jwf j = true /\ (q_json_key_unchecked q = false \/ no_empty_key j = true)) js ->
+    history json_encoder {| jc_quirks := q; jc_strict := true |} (map (json_decoder true) js) = map Ok js.
+Proof. exact json_history_roundtrip. Qed.
+Print Assumptions C13_json_history_roundtrip.
+
+Example C13_history_nonvacuous :
+  let d1 := JObj [([107], JNum (NInt 1))] in
+  let d2 := JObj [([107], JNum (NInt 2))] in
+  Forall (fun j => jwf j = true /\ (q_json_key_unchecked jquirks_cur = false \/ no_empty_key j = true)) [d1; d2; d1] /\
+  history json_encoder {| jc_quirks := jquirks_cur; jc_strict := true |} (map (json_decoder true) [d1; d2; d1])
+    = [Ok d1; Ok d2; Ok d1] /\
+  nth_error [d1; d2; d1] 1 = Some d2.
+Proof.
+  cbv zeta. split; [|split; [vm_compute; reflexivity | reflexivity]].
+  repeat (apply Forall_cons; [split; [vm_compute; reflexivity | right; vm_compute; reflexivity]|]). apply Forall_nil.
+Qed.
